@@ -546,14 +546,17 @@ static bool read_lead(zckCtx *zck) {
 
     /* Read header digest */
     zck_log(ZCK_LOG_DEBUG, "Reading header digest");
-    header = zrealloc(header, length + zck->hash_type.digest_size);
-    if (!header) {
-        zck_log(ZCK_LOG_ERROR, "OOM in %s", __func__);
-        return false;
-    }
     size_t to_read = 0;
-    if(lead < length + zck->hash_type.digest_size)
+    if(lead < length + zck->hash_type.digest_size) {
+        /* Only grow the buffer; shrinking it would drop bytes that have
+         * already been read from the file */
+        header = zrealloc(header, length + zck->hash_type.digest_size);
+        if (!header) {
+            zck_log(ZCK_LOG_ERROR, "OOM in %s", __func__);
+            return false;
+        }
         to_read = length + zck->hash_type.digest_size - lead;
+    }
     if(read_data(zck, header + lead, to_read) < to_read) {
         free(header);
         zck->header_length = 0;
